@@ -23,17 +23,18 @@ class Run:
         self.clients = {c: Client(base) for c in range(1, n + 1)}
         self.ids = []
         self.stats = {"edits": 0, "sends": 0, "receives": 0, "rebased": 0, "dropped": 0, "mirror": 0}
-        self.ids.append(batch.add({"ev": "Begin", "tid": tid, "base": batch.doc(proj.proj(base)), "n": n}))
+        self.ids.append(batch.add({"ev": "Begin", "tid": tid, "base": batch.doc(proj.proj(base)), "ra": proj.pattrs(base.attrs), "n": n}))
 
     # -- logging
     def _actor(self, c):
         cl = self.clients[c]
-        return {"doc": self.b.doc(proj.proj(cl.doc)), "version": cl.version,
+        return {"doc": self.b.doc(proj.proj(cl.doc)), "ra": proj.pattrs(cl.doc.attrs), "version": cl.version,
                 "unconf": [{"step": stepmod.pstep(s), "inv": stepmod.pstep(i)} for s, i in cl.unconf]}
 
     def _log(self, a, c, res, **kw):
         ev = {"ev": "Act", "tid": self.tid, "a": a, "c": c, "res": res, "step": {"type": "none"},
-              "auth": self.b.doc(proj.proj(self.auth_doc)), "confirmed": self.b.doc(proj.proj(self.auth_doc))}
+              "auth": self.b.doc(proj.proj(self.auth_doc)), "authra": proj.pattrs(self.auth_doc.attrs),
+              "confirmed": self.b.doc(proj.proj(self.auth_doc)), "confirmedra": proj.pattrs(self.auth_doc.attrs)}
         ev.update(self._actor(c))
         ev.update(kw)
         self.ids.append(self.b.add(ev))
@@ -114,11 +115,12 @@ class Run:
             kw = {}
             if confirmed is not None:
                 kw["confirmed"] = self.b.doc(proj.proj(confirmed))
+                kw["confirmedra"] = proj.pattrs(confirmed.attrs)
             self._log("receive", c, {"kind": "raise", "cls": type(ex).__name__, "msg": str(ex)[:200]}, **kw)
             return False
         cl.doc, cl.unconf, cl.version = tr.doc, out, len(self.auth_steps)
         self.stats["receives"] += 1
-        self._log("receive", c, {"kind": "ok"}, confirmed=self.b.doc(proj.proj(confirmed)))
+        self._log("receive", c, {"kind": "ok"}, confirmed=self.b.doc(proj.proj(confirmed)), confirmedra=proj.pattrs(confirmed.attrs))
         return True
 
     # -- replay of a TLC behaviour (pipeline G): hist = [{a, c, step}]
@@ -264,10 +266,7 @@ def stage(tier, seed, rng, stats, out):
             tr = Transform(doc)
             _n, _a, thunk = og.pick(tr)
             watchdog.call(lambda: ops.run_op(thunk), 5.0)
-            sts = list(tr.steps)
-            if any(stepmod2.pstep(s)["type"] == "docAttr" for s in sts):
-                return []
-            return sts
+            return list(tr.steps)
         b2 = trace.Batch(js2)
         for toks, rd in pairs:
             tid += 1
